@@ -83,6 +83,34 @@ func c01(r *mon.Run) {
 				c01Account(t, tree, expr, doc, res, i)
 			}})
 	}
+	// spellings of index numbers: leading zeros and -0 are decimal (never octal, never an error)
+	spells := []string{"0", "00", "-0", "07", "08", "09", "010", "011", "012", "-01", "-08", "-010", "-011", "0010", "10", "-10", "9", "-9"}
+	longArr := make([]interface{}, 12)
+	for k := range longArr {
+		longArr[k] = map[string]interface{}{"b": float64(100 + k)}
+	}
+	spellDocs := []interface{}{longArr, map[string]interface{}{"a": longArr}, seqArray(9)}
+	ws = append(ws, mon.Workload{Name: "index-spellings", N: len(spells) * 4 * len(spellDocs),
+		Do: func(i int, t *mon.Tally) {
+			doc := spellDocs[i%len(spellDocs)]
+			k := i / len(spellDocs)
+			sp := spells[k/4]
+			var tree *gen.Expr
+			switch k % 4 {
+			case 0:
+				tree = gen.Chain(nil, gen.StIndexS(sp))
+			case 1:
+				tree = gen.Chain(gen.Field("a"), gen.StIndexS(sp), gen.StField("b"))
+			case 2:
+				tree = gen.MultiList(gen.Chain(gen.Current(), gen.StIndexS(sp)), gen.Chain(gen.Field("a"), gen.StIndexS(sp)))
+			default:
+				tree = gen.Pipe(gen.Chain(nil, gen.StIndexS(sp)), gen.Field("b"))
+			}
+			expr := gen.SpellTight(tree)
+			cx := &caseCtx{r, t, "index-spellings", i}
+			res, _, _ := cx.runBoth(tree, expr, doc)
+			c01Account(t, tree, expr, doc, res, i)
+		}})
 	nrand := tierPick(r, 40000, 1000000)
 	ws = append(ws, mon.Workload{Name: "core-random", N: nrand,
 		Do: func(i int, t *mon.Tally) {
